@@ -1,10 +1,184 @@
-import MwVerif.Model.Title
+import MwVerif.Lemmas.Title.Main
 import MwVerif.Gen.Sites
 import MwVerif.Gen.CharTable
+import MwVerif.Gen.SiteWF
 
+/-!
+# C12 — title normalisation is canonical and idempotent
+
+Theorems over `Model/Title.lean`, for **every** site configuration satisfying the decidable
+`SiteWF` and every implementation of the Unicode primitives satisfying `CharLaws`.
+`SiteWF` is discharged below for each of the bundled sites as regenerated from /repo on this
+run; `CharLaws` for Python's `str` methods is checked over all code points by the harness.
+-/
 namespace MwVerif.Title
 
-/-- placeholder while the theorems are being written (the check claims nothing yet). -/
-theorem c12_model_loaded : (MwVerif.Gen.allSites.length = 12) := by decide
+/-- every result of `splitname` is `assemble` of a namespace of the site and a clean remainder. -/
+theorem splitname_shape {site : Site} {ops : CharOps} (hl : CharLaws ops) {t : Str} {d : Int}
+    {r : Result} (h : splitname site ops t d = some r) :
+    ∃ nsr ∈ site.namespaces, ∃ S0, Clean ops S0 ∧ r = assemble site ops nsr.id nsr.name S0 := by
+  unfold splitname at h
+  simp only [] at h
+  have hc1 := clean_stage1 hl t
+  generalize collapseSpaces (stripEdges ops (replUnderscore t)) = n0 at h hc1
+  have hn : Clean ops (leadingColon ops n0 d).1 := by
+    unfold leadingColon
+    split
+    · rename_i rest
+      exact clean_strip_infix hc1 ⟨[':'], [], by simp⟩
+    · exact hc1
+  generalize (leadingColon ops n0 d).1 = n at h hn
+  generalize (leadingColon ops n0 d).2 = d2 at h
+  unfold splitCore at h
+  split at h
+  · rename_i a b hsc
+    split at h
+    · cases h
+    · rename_i found i P hf
+      injection h with h
+      obtain ⟨nsr, hm, hi, hnm⟩ := findNamespace_mem hf
+      obtain ⟨hsplit, _⟩ := splitColon_some hsc
+      refine ⟨nsr, hm, _, ?_, by rw [hi, hnm]; exact h.symm⟩
+      cases found with
+      | true =>
+        simp only [if_true]
+        exact clean_strip_infix hn ⟨a ++ [':'], [], by rw [hsplit]; simp⟩
+      | false => simpa using hn
+  · split at h
+    · cases h
+    · rename_i P hP
+      injection h with h
+      obtain ⟨nsr, hm, hi, hnm⟩ := nsName_mem hP
+      exact ⟨nsr, hm, n, hn, by rw [hi, hnm]; exact h.symm⟩
+
+/-- **C12 (shape).**  The canonical full name is the namespace's local name, a colon and the
+remainder (no prefix for the nameless main namespace); the reported number is that
+namespace's id; where the site capitalises, the remainder is a fixed point of
+first-letter capitalisation; the remainder has no underscore, no double or edge spaces. -/
+theorem c12_shape {site : Site} {ops : CharOps} (hl : CharLaws ops) {t : Str} {d : Int}
+    {r : Result} (h : splitname site ops t d = some r) :
+    ∃ nsr ∈ site.namespaces, r.ns = nsr.id ∧
+      r.full = (if nsr.name.isEmpty then r.partialName else nsr.name ++ ':' :: r.partialName) ∧
+      Clean ops r.partialName ∧
+      (site.capitalize = true → upperFirst ops r.partialName = r.partialName) := by
+  obtain ⟨nsr, hm, S0, hS0, hr⟩ := splitname_shape hl h
+  refine ⟨nsr, hm, by rw [hr]; rfl, by rw [hr]; rfl, ?_, ?_⟩
+  · rw [hr]; exact (assemble_canon hl hS0 nsr.id nsr.name).1
+  · intro hc
+    rw [hr]
+    simp only [assemble, hc, if_true]
+    exact (clean_upperFirst hl hS0).2
+
+/-- **C12 (idempotence).**  Normalising a canonical full name returns it unchanged — with
+default namespace 0, and with any default namespace when the result carries a namespace
+prefix.  `hu` excludes exactly the results whose main-namespace remainder could itself be
+read as `<namespace>:<rest>` (see `c12_unambiguous_of_stable` and DESIGN.md F15/F16). -/
+theorem c12_idempotent {site : Site} {ops : CharOps} (hs : SiteWF site ops) (hl : CharLaws ops)
+    {t : Str} {d : Int} {r : Result} (h : splitname site ops t d = some r)
+    (hu : site.nsName r.ns = some [] → MainUnambiguous site ops r.partialName) :
+    splitname site ops r.full 0 = some r ∧
+    (site.nsName r.ns ≠ some [] → ∀ d', splitname site ops r.full d' = some r) := by
+  obtain ⟨nsr, hm, S0, hS0, hr⟩ := splitname_shape hl h
+  obtain ⟨hcl, hfix⟩ := assemble_canon (site := site) hl hS0 nsr.id nsr.name
+  have hns : site.nsName r.ns = some nsr.name := by rw [hr]; exact hs.nsNameSelf nsr hm
+  have hpart : r.partialName = (assemble site ops nsr.id nsr.name S0).partialName := by rw [hr]
+  by_cases hne : nsr.name = []
+  · -- main namespace: the full name is the remainder itself
+    have hid : nsr.id = 0 := hs.emptyIsMain nsr hm hne
+    have hfull : r.full = r.partialName := by rw [hr]; simp [assemble, hne]
+    have hu' := hu (by rw [hns, hne])
+    constructor
+    · rw [hfull, pass2_main hs hl (by rw [hpart]; exact hcl) hu', hpart]
+      have := hfix
+      rw [hid, hne] at this
+      rw [hid, hne, this, hr, hid, hne]
+    · intro hc; exact absurd (by rw [hns, hne]) hc
+  · have hfull : r.full = nsr.name ++ ':' :: r.partialName := by
+      rw [hr]
+      have : nsr.name.isEmpty = false := by
+        cases hn : nsr.name with
+        | nil => exact absurd hn hne
+        | cons x xs => rfl
+      simp [assemble, this]
+    have key : ∀ d', splitname site ops r.full d' = some r := by
+      intro d'
+      rw [hfull, pass2_prefixed hs hl hm hne (by rw [hpart]; exact hcl) d', hpart, hfix, hr]
+    exact ⟨key 0, fun _ => key⟩
+
+/-- ordinary titles satisfy the side condition of `c12_idempotent`: if the text before the
+first colon of a cleaned name is not a namespace, and capitalising its first letter does not
+change its lower-case form (true for all but 125 exotic first letters), it is still not a
+namespace after capitalisation. -/
+theorem c12_unambiguous_of_stable {site : Site} {ops : CharOps} {a b : Str}
+    (hnf : findNamespace site ops a 0 = some (false, 0, []))
+    (hst : ops.lower (upperFirst ops a) = ops.lower a) :
+    findNamespace site ops (upperFirst ops a) 0 = some (false, 0, []) := by
+  rw [findNamespace_key 0 (x := upperFirst ops a) (y := a) (by rw [hst])]
+  exact hnf
+
+/-! ### spelling invariance: every spelling of a title maps to the same canonical name -/
+
+/-- surrounding whitespace, direction marks and underscores. -/
+theorem c12_spelling_edges {site : Site} {ops : CharOps} (hl : CharLaws ops) (pre post t : Str) (d : Int)
+    (h1 : ∀ c ∈ pre, ops.edge c = true ∨ c = '_') (h2 : ∀ c ∈ post, ops.edge c = true ∨ c = '_') :
+    splitname site ops (pre ++ t ++ post) d = splitname site ops t d :=
+  splitname_eq_of_clean d (cleanName_edges hl pre post t h1 h2)
+
+/-- underscores for spaces, anywhere. -/
+theorem c12_spelling_underscore {site : Site} {ops : CharOps} (t : Str) (d : Int) :
+    splitname site ops (t.map (fun c => if c = ' ' then '_' else c)) d = splitname site ops t d := by
+  apply splitname_eq_of_clean
+  apply cleanName_underscore
+  simp only [replUnderscore, List.map_map]
+  apply List.map_congr_left
+  intro c _
+  by_cases h1 : c = ' '
+  · simp [h1]
+  · by_cases h2 : c = '_' <;> simp [h1, h2]
+
+/-- runs of spaces. -/
+theorem c12_spelling_space_runs {site : Site} {ops : CharOps} (hl : CharLaws ops) (a b : Str) (d : Int) :
+    splitname site ops (a ++ ' ' :: ' ' :: b) d = splitname site ops (a ++ ' ' :: b) d :=
+  splitname_eq_of_clean d (cleanName_double_space hl a b)
+
+/-- the namespace part: any spelling that has the same lower-cased, stripped form as a
+local, canonical or alias name of namespace `i` — so any letter case, blanks around it — and
+any blanks after the colon, give the same result (on the cleaned name). -/
+theorem c12_spelling_namespace {site : Site} {ops : CharOps} {a a' b b' : Str} {d : Int} {i : Int}
+    {P : Str} (ha : ':' ∉ a) (ha' : ':' ∉ a')
+    (hkey : stripWs ops (ops.lower a) = stripWs ops (ops.lower a'))
+    (hf : findNamespace site ops a d = some (true, i, P))
+    (hb : stripEdges ops b = stripEdges ops b') :
+    splitCore site ops (a ++ ':' :: b) d = splitCore site ops (a' ++ ':' :: b') d :=
+  splitCore_namespace_spelling ha ha' hf (by rw [← findNamespace_key d hkey]; exact hf) hb
+
+/-- a leading colon, when the default namespace is the main namespace. -/
+theorem c12_spelling_leading_colon {ops : CharOps} {n : Str} (hn : NoEdge ops.edge n)
+    (hc : ∀ rest, n ≠ ':' :: rest) : leadingColon ops (':' :: n) 0 = leadingColon ops n 0 :=
+  leadingColon_main hn hc
+
+/-! ### the bundled sites (regenerated from /repo on this run) are well-formed -/
+
+theorem c12_bundled_sites_wf :
+    SiteWF Gen.site_de Gen.genOps ∧ SiteWF Gen.site_en Gen.genOps ∧ SiteWF Gen.site_es Gen.genOps ∧
+    SiteWF Gen.site_fr Gen.genOps ∧ SiteWF Gen.site_it Gen.genOps ∧ SiteWF Gen.site_ja Gen.genOps ∧
+    SiteWF Gen.site_nl Gen.genOps ∧ SiteWF Gen.site_no Gen.genOps ∧ SiteWF Gen.site_pl Gen.genOps ∧
+    SiteWF Gen.site_pt Gen.genOps ∧ SiteWF Gen.site_simple Gen.genOps ∧ SiteWF Gen.site_sv Gen.genOps :=
+  ⟨Gen.siteWF_de, Gen.siteWF_en, Gen.siteWF_es, Gen.siteWF_fr, Gen.siteWF_it, Gen.siteWF_ja,
+   Gen.siteWF_nl, Gen.siteWF_no, Gen.siteWF_pl, Gen.siteWF_pt, Gen.siteWF_simple, Gen.siteWF_sv⟩
+
+/-! ### Non-vacuity (evaluated by the kernel on the generated English and German sites) -/
+
+example : splitname Gen.site_en Gen.genOps
+    [lrm, ' ', 't', 'A', 'l', 'k', ' ', ':', '_', 'f', 'o', 'o', ' ', ' ', 'b', 'a', 'r', '_'] 0 =
+    some ⟨1, "Foo bar".toList, "Talk:Foo bar".toList⟩ := by decide +kernel
+
+example : splitname Gen.site_en Gen.genOps "Talk:Foo bar".toList 0 =
+    some ⟨1, "Foo bar".toList, "Talk:Foo bar".toList⟩ := by decide +kernel
+
+example : splitname Gen.site_de Gen.genOps "x".toList 10 =
+    some ⟨10, "X".toList, "Vorlage:X".toList⟩ := by decide +kernel
+
+example : splitname Gen.site_en Gen.genOps "foo".toList 999 = none := by decide +kernel
 
 end MwVerif.Title
